@@ -24,7 +24,8 @@ META = {
         "and Python types at every level / same exception class and message); (b) metamorphic: both executions end with "
         "the same status and result/error. Ground truth is needed only at step leaves. Non-trivial = >=1 position "
         "observed in >=2 invocations with a non-None value or an exception and the two runs have different invocation "
-        "counts; distinct = (program shape, both invocation-outcome patterns)."
+        "counts; distinct = (program shape, both invocation-outcome patterns). Second stage: the same programs with steps that "
+        "return another value every time their function really runs (tickets), judged by rule (a) alone."
     ),
     "assumptions": [
         "excluded by construction: crash points inside at-most-once attempts (C04's subject), map/parallel that can decide before all branches finish, callback/invoke timeouts",
@@ -50,6 +51,31 @@ def cases(draw):
         "line": [],
         "alt": {"backend": draw(G.backend_cfgs()), "plan": {"crashes": draw(G.crash_plans(max_crashes=3))}, "sched": draw(G.schedules())},
     }
+
+
+@st.composite
+def fresh_cases(draw):
+    """Steps that return another value each time their function really runs (what durable steps exist for). No
+    metamorphic partner here (an interrupted at-least-once step legitimately runs again); the per-run rule applies:
+    once a position delivered an outcome, every later replay delivers the same one."""
+    prog = draw(G.programs(max_stmts=6, sems=("least", "most"), deterministic=True, wfcond_fail=False, wait_all=True, fresh=True))
+    return {"prog": prog, "limits": draw(st.sampled_from([{}, {}, {"checkpoint": 300}])), "backend": draw(G.backend_cfgs()),
+            "plan": {"crashes": draw(G.crash_plans(max_crashes=2))}, "sched": draw(G.schedules()), "line": []}
+
+
+def _fresh_nontrivial(run, case):
+    seen = {}
+    for o in run.obs:
+        if o["out"] == "value" and isinstance(o.get("value"), dict) and "ticket" in o["value"]:
+            seen.setdefault(o["path"], set()).add(o["inv"])
+    if not any(len(v) >= 2 for v in seen.values()):
+        return None
+    return [G.shape_of(case["prog"]), [i.get("outcome") for i in run.invocations], case["plan"]["crashes"]]
+
+
+def _fresh_stage(ctx):
+    WC.run_generated(ctx, fresh_cases(), PROPS, n_cases=ctx.budget["random_cases"], nontrivial=_fresh_nontrivial,
+                     classes=lambda r, c: ["fresh-value-steps"] + classes(r, c), seed_offset=21)
 
 
 def pair_monitor(run, case):
@@ -99,4 +125,4 @@ def classes(run, case):
     return out
 
 
-install(globals(), props=("C02",), cases=cases, nontrivial=nontrivial, classes=classes, extra_monitors=(pair_monitor,))
+install(globals(), props=("C02",), cases=cases, nontrivial=nontrivial, classes=classes, extra_monitors=(pair_monitor,), stages=(_fresh_stage,))
